@@ -173,6 +173,20 @@ def rule_finish_arms(ctx, crate, rule="R-FINISH-ARMS"):
             sts_v = status_stores(b)
         has_hide = [i for i, s, st in sts_v if i in reg and "DoneHidden" in st]
         loc = "%s:%d" % (b.file, b.term(sw[0][0]).get("line", 0))
+        if want_set and has_set:
+            # ... unconditionally: every path of this variant that reaches the final draw with a known length passes the setter
+            R_v, avoid_v = K.variant_reach(b, crate, "state::ProgressFinish", v, pred, want_avoid=True)
+            none_edges = []
+            for sb2, t2, pl2, d2 in K.discr_switches(b):
+                if [f for f in place_fields(pl2)][-1:] and place_fields(pl2)[-1][2] == "len":
+                    for tgt2, vs2 in K.edge_variants(crate, t2, "std::option::Option").items():
+                        if vs2 == {"None"}:
+                            none_edges.append((sb2, tgt2))
+            draws_ = {c.bb for c in b.calls(BAR_DRAW)}
+            esc = set(b.reach([0], avoid={c.bb for c in has_set}, avoid_edges=set(avoid_v) | set(none_edges))) & draws_
+            ctx.check(not esc, rule, "%s:position-unconditional" % v, b.name, loc,
+                      "%s sets the position to the length on every path with a known length" % v,
+                      "%s can reach the final draw with a known length without setting the position to it (an extra condition guards the update, e.g. `pos < len`)" % v, cfg)
         ctx.check(bool(has_set) == want_set, rule, "%s:position" % v, b.name, loc,
                   "%s %s the position to the length" % (v, "sets" if want_set else "leaves"),
                   "%s arm %s set the position to the length" % (v, "does not" if want_set else "must not"), cfg)
